@@ -232,7 +232,7 @@ def declined_clause(case, cats, fn, osites, nsites, orders, changed, viol, ctxt,
     """review session, categories not answered with yes were declined: the snapshots those categories speak about are 'other snapshots'.
     Only what follows from the meaning of a category alone is demanded (no model of the pending set):
       create declined            -> an empty snapshot() stays empty (nothing but create ever fills one);
-      only create approved       -> an argument that exists (no inner snapshot(), not a s[key] parent) keeps its text;
+      only create approved       -> an argument that exists (no inner snapshot(), not a s[key] parent) keeps its syntax tree;
       at most update approved    -> an argument that exists keeps its value."""
     yes = set(cats)
     order = orders.get(fn) or []
@@ -248,7 +248,13 @@ def declined_clause(case, cats, fn, osites, nsites, orders, changed, viol, ctxt,
         if "snapshot(" in a.region_text or site.get("op") == "item":
             continue
         if yes <= {"create"}:
-            viol("declined-change-not-written", "existing-argument-rewritten-although-only-create-was-approved", detail)
+            # (compared as syntax trees: when whole-file formatting applies, the formatter may re-quote or re-wrap any argument)
+            try:
+                same_tree = ast.dump(ast.parse("(\n" + a.arg_text + "\n)", mode="eval")) == ast.dump(ast.parse("(\n" + (b.arg_text or "None") + "\n)", mode="eval"))
+            except SyntaxError:
+                continue
+            if not same_tree:
+                viol("declined-change-not-written", "existing-argument-rewritten-although-only-create-was-approved", detail)
         elif yes <= {"update"}:
             try:
                 same = P.eval_arg(a.arg_text) == P.eval_arg(b.arg_text) if b.arg_text is not None else False
